@@ -350,7 +350,13 @@ fn check_unused_defines(
             0,
             &hierarchy);
 
-        if let None = maybe_decl
+        // Only a constant takes its value from a define:
+        // a label or a function of that name does not use it
+        let is_constant = maybe_decl
+            .map(|decl_ref| decls.symbols.get(decl_ref).kind)
+            .map_or(false, |kind| matches!(kind, util::SymbolKind::Constant));
+
+        if !is_constant
         {
             report.error(
                 format!(
